@@ -328,8 +328,57 @@ pub fn run(id: &str, data: &[u8]) {
     }
 }
 
-/// Converts a fuzzer artifact into a JSON replay file through the normal engine path; returns true on violation.
+fn sig_of(id: &str, data: &[u8]) -> Option<String> {
+    let r = match id {
+        "C01" => c01::RegistryCheck.oracle(&decode_c01(data)).result,
+        "C02" => match decode_c02(data) {
+            C02Case::Guards(c) => c02::GuardCheck.oracle(&c).result,
+            C02Case::Multi(c) => c02::MultiCheck.oracle(&c).result,
+            C02Case::Hold(c) => c02::HoldCheck.oracle(&c).result,
+        },
+        "C03" => c03::ConfigCheck.oracle(&decode_c03(data)).result,
+        "C04" => c04::StackCheck.oracle(&decode_c04(data)).result,
+        "C13" => c13::HelperCheck.oracle(&decode_c13(data)).result,
+        _ => Ok(()),
+    };
+    r.err().map(|f| f.sig)
+}
+
+/// Delta-debugging on the artifact bytes: removes chunks as long as the failure keeps the same signature.
+pub fn minimise(id: &str, data: &[u8]) -> Vec<u8> {
+    let Some(sig) = sig_of(id, data) else { return data.to_vec() };
+    let mut cur = data.to_vec();
+    let mut chunk = (cur.len() / 2).max(1);
+    let mut budget = 4000;
+    while chunk >= 1 && budget > 0 {
+        let mut i = 0;
+        let mut progressed = false;
+        while i < cur.len() && budget > 0 {
+            let end = (i + chunk).min(cur.len());
+            let mut cand = cur.clone();
+            cand.drain(i..end);
+            budget -= 1;
+            if sig_of(id, &cand).as_deref() == Some(sig.as_str()) {
+                cur = cand;
+                progressed = true;
+            } else {
+                i += chunk;
+            }
+        }
+        if chunk == 1 && !progressed {
+            break;
+        }
+        if !progressed {
+            chunk /= 2;
+        }
+    }
+    cur
+}
+
+/// Converts a fuzzer artifact into a JSON replay file through the normal engine path (after minimising it).
 pub fn replay_bytes(ctx: &mut crate::engine::Ctx, data: &[u8]) {
+    let min = minimise(&ctx.id.clone(), data);
+    let data: &[u8] = &min;
     let one = |ctx: &mut crate::engine::Ctx, name: &str, case: serde_json::Value, r: Result<(), Failure>| {
         if let Err(f) = r {
             let mut f = f;
